@@ -10,9 +10,9 @@ MANIFEST = dict(
          "for EVERY plan without a teardown fault (all callback positions, source subscribe function, final observer; any number of faults) no panic reaches the caller of Subscribe/Next/Unsubscribe (never_escapes) "
          "and every injected panic is in the chain of an error given to the observer, the drop hook or the unhandled hook (every_failure_reaches_someone); for EVERY plan in which the final observer's onNext does not panic the trace obeys the grammar (grammar_partial); "
          "a panicking subscribe function = its delivered prefix, then Error(observable(p)), then Unsubscribe (subscribe_fn_panic); an error return is forwarded unwrapped (error_return); Unsubscribe runs every finalizer and re-raises exactly the joined panics. "
-         "F: every go statement of the regenerated catalogue that calls user code is recovered except the listed one; subscription.Add unlocks by defer (decide over regenerated tables). K: fault injection at every callback position x invocation index <= 3 x {panic(error), panic(value), error return}, "
+         "F: every go statement of the regenerated catalogue that calls user code is recovered (no exception since fix 8bf73dd); subscription.Add unlocks by defer (decide over regenerated tables). K: fault injection at every callback position x invocation index <= 3 x {panic(error), panic(value), error return}, "
          "singly and in pairs, for 23 operators x variants x scripts x {sync, hot}, all result fields equal on both sides, plus child-process runs for library goroutines. "
-         "Partial: six deviation classes of the pinned tree are witness theorems + known findings (final observer stays open after its onNext panics; Error/Complete-position callbacks; Future's bare goroutine; "
+         "Partial: six deviation classes of the pinned tree are witness theorems + known findings (final observer stays open after its onNext panics; Error/Complete-position callbacks; Future's factory panic reaches only the unhandled hook (its bare goroutine was repaired by 8bf73dd); "
          "teardown panics re-raised into the producer / dropped; subscriberImpl.NextWithContext without deferred unlock). Not covered: Share/subject scenarios (iv, subject half of v), multi-source operators.",
     technique="Lean 4 proof (simulation of the fault interpreter by runOp of an injected machine, invariants over the interpreter, decide over the regenerated go-statement table) + differential correspondence with fault injection",
     ref='5/C07')
@@ -56,7 +56,7 @@ def oracle_fault(case, gd):
             return 'finalizers: not every finalizer ran'
         return None
     if op.startswith('Go:'):
-        if gd.get('crash') == '1' and op != 'Go:Future':
+        if gd.get('crash') == '1':
             return 'crash: a panic of user code on a library goroutine killed the process'
         if gd.get('hang') == '1' and op != 'Go:RawObserver:safe':
             return 'lock: Subscribe never returned'
@@ -103,7 +103,7 @@ def search(ctx, out):
                 ctx.violation('subscription.Add no longer releases its mutex by defer: a panicking teardown leaves the subscription locked',
                               f'# the follow-up calls (Next, IsClosed, Unsubscribe) never return\n{case}\n# implementation: {g}\n')
                 found = True
-    bad = [r for r in go_rows() if r[3] and not r[2] and r[0] != 'Future']
+    bad = [r for r in go_rows() if r[3] and not r[2]]
     for name, line, _, _ in bad:
         case = f'case x kind=fault op=Go:{name} faults=cb:0:pe5'
         res = R.replay_cases(ctx, [case])
@@ -112,8 +112,8 @@ def search(ctx, out):
             ctx.violation(f'go statement at line {line} of {name} runs user code without recoverUnhandledError: the process dies',
                           f'# a panic of user code on a library goroutine kills the process\n{case}\n# implementation: {g}\n')
         else:
-            ctx.violation(f'go statement at line {line} of {name} runs user code without recoverUnhandledError (theorem go_statements_recovered_partial no longer checks)',
-                          f'theorem Ro.C07.go_statements_recovered_partial\nrow {name} line {line}: callsUser=true recovered=false\n(no child-process scenario for this operator: {g})\n', no_input=True)
+            ctx.violation(f'go statement at line {line} of {name} runs user code without recoverUnhandledError (theorem go_statements_recovered no longer checks)',
+                          f'theorem Ro.C07.go_statements_recovered\nrow {name} line {line}: callsUser=true recovered=false\n(no child-process scenario for this operator: {g})\n', no_input=True)
         found = True
     return found
 
